@@ -6,7 +6,9 @@ for d in sorted(glob.glob(os.path.join(os.path.dirname(os.path.dirname(os.path.a
     m = json.load(open(os.path.join(d, "meta.json")))
     notes = open(os.path.join(d, "notes.md")).read() if os.path.exists(os.path.join(d, "notes.md")) else ""
     name = os.path.basename(d)
-    det = ", ".join(c for c, r in m.get("checks_quick", {}).items() if r["exit"] == 1) or "-"
+    first = [c for c, r in m.get("checks_quick", {}).items() if r["exit"] == 1]
+    later = [c for c in m.get("detected_by", []) if c not in first]
+    det = ", ".join(first + [c + " (after extension)" for c in later]) or "-"
     files = sorted({l.split(" b/")[1].strip() for l in open(os.path.join(d, "patch.diff")) if l.startswith("diff --git")})
     rows.append((name, m["property"], ", ".join(files), det, m.get("history", "detected by the first version of the check")))
 print("| seed | breaks | files changed | detected by (quick) | history |")
